@@ -177,7 +177,7 @@ func runC03(t *mon.T, raw json.RawMessage) {
 	bc, _, _ := refcar.SplitCid(base.Cid)
 	content.Blocks = append(content.Blocks,
 		refcar.Block{Cid: refcar.MakeCidV1(0x55, 0x1e, bc.Digest), Data: []byte("same digest, other hash code")},
-		refcar.Block{Cid: refcar.MakeCidV1(0x55, 0x00, nil), Data: nil},               // identity, empty
+		refcar.Block{Cid: refcar.MakeCidV1(0x55, 0x00, nil), Data: nil},                     // identity, empty
 		refcar.Block{Cid: refcar.MakeCidV1(0x71, 0x00, []byte("idb")), Data: []byte("idb")}, // identity with data
 	)
 	if len(bc.Digest) > 0 {
@@ -261,7 +261,9 @@ func runC03(t *mon.T, raw json.RawMessage) {
 		}},
 		{"plain io.Reader", func() (io.Reader, func()) { return lab.PlainReader{R: bytes.NewReader(file)}, func() {} }},
 		{"1-byte plain reader", func() (io.Reader, func()) { return lab.OneByteReader{R: bytes.NewReader(file)}, func() {} }},
-		{"bufio.Reader (ByteReader, no Seek)", func() (io.Reader, func()) { return bufio.NewReaderSize(bytes.NewReader(file), 16+int(d.Seed&63)), func() {} }},
+		{"bufio.Reader (ByteReader, no Seek)", func() (io.Reader, func()) {
+			return bufio.NewReaderSize(bytes.NewReader(file), 16+int(d.Seed&63)), func() {}
+		}},
 		{"bytes.Buffer (ByteReader, no Seek)", func() (io.Reader, func()) { return bytes.NewBuffer(append([]byte{}, file...)), func() {} }},
 		{"Reader.DataReader", func() (io.Reader, func()) {
 			rd, err := carv2.NewReader(bytes.NewReader(file), opts...)
@@ -428,12 +430,12 @@ func genC03(g *mon.G) {
 
 func init() {
 	Register(&mon.Check{
-		ID:    "C03",
-		Level: "exploration",
-		Rule: "cases = seeded payloads (synthetic + honest CIDs, duplicates, equal digest under two hash codes, identity with/without data, CIDv0, digest widths 0..80) x container {v1, null-padded v1, v2, padded v2, index-less v2} x {StoreIdentityCIDs, ZeroLengthSectionAsEOF, MaxIndexCidSize}; each is indexed by 3 builders from 7 source kinds (seekable, *os.File, plain reader, 1-byte reader, bufio.Reader and bytes.Buffer which are ByteReaders without Seek, Reader.DataReader) (+ file path and ReadOrGenerateIndex) and every index is probed with every present CID and 2-3 absent neighbours each; non-trivial = all",
+		ID:          "C03",
+		Level:       "exploration",
+		Rule:        "cases = seeded payloads (synthetic + honest CIDs, duplicates, equal digest under two hash codes, identity with/without data, CIDv0, digest widths 0..80) x container {v1, null-padded v1, v2, padded v2, index-less v2} x {StoreIdentityCIDs, ZeroLengthSectionAsEOF, MaxIndexCidSize}; each is indexed by 3 builders from 7 source kinds (seekable, *os.File, plain reader, 1-byte reader, bufio.Reader and bytes.Buffer which are ByteReaders without Seek, Reader.DataReader) (+ file path and ReadOrGenerateIndex) and every index is probed with every present CID and 2-3 absent neighbours each; non-trivial = all",
 		Assumptions: []string{"reference scan (refcar.DecodeV1) yields the true key → offsets multiset", "the insertion index is not an on-disk codec: digest-keyed or multihash-keyed GetAll answers are both accepted for it"},
-		Gen:   genC03,
-		Run:   runC03,
+		Gen:         genC03,
+		Run:         runC03,
 		MinCover: map[string]int{
 			"container:v1": 20, "container:v1-nullpad": 20, "container:v2": 20, "container:v2-pad": 20, "container:v2-indexless": 20,
 			"index-built": 500, "empty-payload:v2": 3, "empty-payload:v2-pad": 3, "empty-payload:v1": 3, "cid-too-large-rejected": 10, "source:plain io.Reader": 100, "source:bufio.Reader (ByteReader, no Seek)": 100, "source:bytes.Buffer (ByteReader, no Seek)": 100, "source:Reader.DataReader": 100,
